@@ -4,7 +4,7 @@ from __future__ import annotations
 import ast
 
 from sa.engine.facts import Bad, F
-from sa.engine.pattern import find_all, u
+from sa.engine.pattern import P, find_all, u
 from sa.engine.source import norm
 from .common import A, checkpoint_typestate, is_current_task, queue_ends
 
@@ -47,6 +47,11 @@ def check(ctx):
     for st, env in handoff:
         # the new owner is dequeued together with its future
         deq = [(s, e) for s, e in ctx.sites(rel, "$T, $F = self._waiters.popleft()", env={"T": env["T"]})]
+        if not deq:
+            # the dequeued pair may travel through locals (`item = q.popleft() ... pair = item ... task, fut = pair`)
+            from .common import origin_of
+            deq = [(s, e) for s, e in ctx.sites(rel, "$T, $F = $V", env={"T": env["T"]})
+                   if P("self._waiters.popleft()").match(origin_of(rel.node, e["V"])) is not None]
         if not deq:
             ctx.ob("R09-b", rel, "hand-off target", False,
                    detail=f"`{norm(st)}`: the new owner is not the task dequeued from the head of _waiters", node=st)
